@@ -10,6 +10,7 @@ tier = sys.argv[1] if len(sys.argv) > 1 else os.environ.get("VERIF_TIER", "quick
 B = f"{V}/.build/c20"
 env = dict(os.environ, GOFLAGS="-mod=mod", GOPROXY="off", GOSUMDB="off", GOTOOLCHAIN="local")
 start = time.time()
+REPO = os.environ.get("VERIF_REPO", "/repo")
 
 
 def sh(cmd, cwd=None, **kw):
@@ -34,12 +35,12 @@ r = sh(["go", "build", "-o", f"{V}/.build/connov", "."], cwd=f"{V}/tools/connov"
 if r.returncode:
     fail("connov build failed", r.stdout)
 shutil.rmtree(f"{B}/src", ignore_errors=True)
-r = sh([f"{V}/.build/connov", "-repo", "/repo", "-harness", f"{V}/mcconn", "-out", B])
+r = sh([f"{V}/.build/connov", "-repo", REPO, "-harness", f"{V}/mcconn", "-out", B])
 if r.returncode:
     fail("overlay generation failed (connector sources changed shape?)", r.stdout)
 print(r.stdout.strip())
 r = sh(["go", "test", "-c", "-vet=off", f"-modfile={B}/alt.mod", f"-overlay={B}/overlay.json", "-o", f"{B}/conn.test",
-        "./cmd/mhub-minter-connector"], cwd="/repo/minter-connector")
+        "./cmd/mhub-minter-connector"], cwd=f"{REPO}/minter-connector")
 if r.returncode:
     fail("harness build failed (the connector under /repo does not compile with the harness)", r.stdout)
 
@@ -136,7 +137,7 @@ evidence = {
         "evaluations": cur.get("sessions", 0) + cmdm.get("evaluations", 0),
         "distinct_nontrivial": len(cur["outcomes"]) + len(cmdm["outcomes"]),
         "rule": "cursor: for every block history of the tier's families, breadth-first search over (status file contents | missing | torn, chain length already seen); a transition is one connector process lifetime (real LoadStatus, GetLatestMinterBlockAndNonce with every acknowledged nonce 0..max+1, relayMinterEvents calls) under every environment answer (chain length reported at each Status call, one scripted node error, a torn first write); every completed status write is a crash state and is checked against the cursor equation, every committed claim against the reference numbering. command: Cartesian grid type x recipient x fee string x amount through the real ValidateAndComplete and through the relay loop. distinct = outcome classes",
-        "redirected_call_sites": [f"{s['file'].replace('/repo/', '')}:{s['line']} {s['call']}" for s in sites],
+        "redirected_call_sites": [f"{s['file'].replace(REPO + '/', '')}:{s['line']} {s['call']}" for s in sites],
         "known_findings_hit": hit,
         "explanation": "every transition executes the connector's real code compiled from /repo's working tree (go test -c -modfile -overlay); only os.WriteFile/os.ReadFile/time.Sleep calls and the transaction committer's RunServer/CommitTx are redirected to the harness",
     },
